@@ -42,19 +42,19 @@ func (s Stack) Apply(opt *Option, profile string) (string, error) {
 	if len(opt.ArgList) == 0 {
 		return "", fmt.Errorf("no profile to stack")
 	}
-	t := opt.ArgList[0]
-	if t != "X" {
+	names := opt.ArgList
+	if names[0] != "X" {
 		regCleanStakedRules = slices.Insert(regCleanStakedRules, 0,
 			util.ToRegexRepl([]string{
 				`(?m)^.*(|P|p)(|U|u)(|i)x,.*$`, ``, // Remove X transition rules
 			})...,
 		)
 	} else {
-		delete(opt.ArgMap, t)
+		names = names[1:]
 	}
 
 	res := ""
-	for name := range opt.ArgMap {
+	for _, name := range names {
 		stackedProfile := prebuild.RootApparmord.Join(name).MustReadFileAsString()
 		m := regRules.FindStringSubmatch(stackedProfile)
 		if len(m) < 2 {
